@@ -11,6 +11,7 @@ HYPOTHESES = []
 NOT_YET_PROVED = []
 ASSUMPTIONS = []
 nontrivial = nontrivial_default
+EXTRA_MODULES = {"Props.TieCodec": "PyEcc.Tie."}
 P = O.BLS_P
 
 
@@ -39,15 +40,19 @@ def g2_axis_y(n=3):
 
 
 def g2_special(rng):
-    """G2 points with y_im = 0 or y_re = 0: x real => x^3 + 4 + 4i ... search small real/imag x"""
+    """G2 points whose x lies in the base field (x_im = 0) or is purely imaginary (x_re = 0): the second / first encoded word
+    carries no coordinate bits"""
     out = []
     for kind in ("re", "im"):
+        found = 0
         for t in range(1, 400):
             x = O.Fp2(t, 0, P) if kind == "re" else O.Fp2(0, t, P)
             y = (x * x * x + O.b2()).sqrt()
-            if y is not None and (y.a == 0 or y.b == 0):
+            if y is not None:
                 out.append((x, y))
-                break
+                found += 1
+                if found >= 2:
+                    break
     return out
 
 
